@@ -233,16 +233,39 @@ def ordered_keys(entries) -> bool:
 
 
 # --------------------------------------------------------------------------- dulwich drivers
+def via_stat(e) -> bool:
+    """Entries that a caller would build with index_entry_from_stat (nanosecond times, no flag
+    bits); used for those whose device number is odd so that both constructions are exercised."""
+    return (e["ct"]["k"] == "pair" and e["mt"]["k"] == "pair" and not (e["valid"] or e["skip"] or e["ita"] or e["xbit"])
+            and limbs_to_int(e["dev"]) % 2 == 1 and limbs_to_int(e["ct"]["ns"]) < 10**9 and limbs_to_int(e["mt"]["ns"]) < 10**9)
+
+
 def dw_entry(e, with_stage_bits=False):
-    from dulwich.index import IndexEntry
-    flags = (0x8000 if e["valid"] else 0) | (0x4000 if e["xbit"] else 0)
+    from dulwich.index import IndexEntry, index_entry_from_stat
+    if via_stat(e) and not with_stage_bits:
+        ct = limbs_to_int(e["ct"]["s"]) * 10**9 + limbs_to_int(e["ct"]["ns"])
+        mt = limbs_to_int(e["mt"]["s"]) * 10**9 + limbs_to_int(e["mt"]["ns"])
+        mode = limbs_to_int(e["mode"])
+        st = os.stat_result((mode & 0xFFFFFFFF, limbs_to_int(e["ino"]), limbs_to_int(e["dev"]), 1, limbs_to_int(e["uid"]),
+                             limbs_to_int(e["gid"]), limbs_to_int(e["size"]), 0, mt // 10**9, ct // 10**9),
+                            {"st_atime": 0.0, "st_mtime": mt / 1e9, "st_ctime": ct / 1e9, "st_atime_ns": 0, "st_mtime_ns": mt, "st_ctime_ns": ct})
+        return index_entry_from_stat(st, runs_to_bytes(e["sha"]).hex().encode(), mode=mode)
+    # flag bits are set the way a caller of dulwich sets them: through its named constants and helpers
+    from dulwich.index import EXTENDED_FLAG_INTEND_TO_ADD, EXTENDED_FLAG_SKIP_WORKTREE, FLAG_EXTENDED, FLAG_STAGESHIFT, FLAG_VALID
+    flags = (FLAG_VALID if e["valid"] else 0) | (FLAG_EXTENDED if e["xbit"] else 0)
     if with_stage_bits:
-        flags |= e["stage"] << 12
-    return IndexEntry(
+        flags |= e["stage"] << FLAG_STAGESHIFT
+    ent = IndexEntry(
         ctime=time_to_py(e["ct"]), mtime=time_to_py(e["mt"]), dev=limbs_to_int(e["dev"]), ino=limbs_to_int(e["ino"]),
         mode=limbs_to_int(e["mode"]), uid=limbs_to_int(e["uid"]), gid=limbs_to_int(e["gid"]), size=limbs_to_int(e["size"]),
         sha=runs_to_bytes(e["sha"]).hex().encode(), flags=flags,
-        extended_flags=(0x4000 if e["skip"] else 0) | (0x2000 if e["ita"] else 0))
+        extended_flags=EXTENDED_FLAG_INTEND_TO_ADD if e["ita"] else 0)
+    if e["skip"]:
+        if e["xbit"]:
+            ent.set_skip_worktree(True)
+        else:
+            ent.extended_flags |= EXTENDED_FLAG_SKIP_WORKTREE
+    return ent
 
 
 def dw_fill(idx, ins):
@@ -265,7 +288,8 @@ def dw_write(path, v, skip, ins):
     from dulwich.index import Index
     if os.path.exists(path):
         os.unlink(path)
-    idx = Index(path, read=False, skip_hash=skip, version=v)
+    # version 2 is also the default of Index(): leave it implicit for every other case
+    idx = Index(path, read=False, skip_hash=skip, version=None if (v == 2 and len(ins) % 2 == 0) else v)
     dw_fill(idx, ins)
     idx.write()
     with open(path, "rb") as f:
@@ -277,13 +301,15 @@ def _abs_from_dw(name, stage, e):
         if isinstance(t, tuple) and len(t) == 2 and all(isinstance(x, int) for x in t):
             return pair_time(t[0], t[1]) if 0 <= t[0] < 2**32 and 0 <= t[1] < 2**32 else {"k": "bad", "s": [], "ns": [], "q": 0}
         return {"k": "bad:" + type(t).__name__, "s": [], "ns": [], "q": 0}
-    fst = (e.flags >> 12) & 3
+    from dulwich.index import EXTENDED_FLAG_INTEND_TO_ADD, EXTENDED_FLAG_SKIP_WORKTREE, FLAG_EXTENDED, FLAG_VALID
+    fst = e.stage().value
+    skipbit = e.skip_worktree if hasattr(e, "skip_worktree") else bool(e.extended_flags & EXTENDED_FLAG_SKIP_WORKTREE)
     return {"name": bytes_to_runs(name), "stage": stage if fst == stage else 100 + fst, "ct": tm(e.ctime), "mt": tm(e.mtime),
             "dev": int_to_limbs(e.dev), "ino": int_to_limbs(e.ino), "mode": int_to_limbs(e.mode), "uid": int_to_limbs(e.uid),
             "gid": int_to_limbs(e.gid), "size": int_to_limbs(e.size),
             "sha": bytes_to_runs(bytes.fromhex(e.sha.decode())) if len(e.sha) == 40 else [[0, 0]],
-            "valid": bool(e.flags & 0x8000), "skip": bool(e.extended_flags & 0x4000), "ita": bool(e.extended_flags & 0x2000),
-            "xbit": bool(e.flags & 0x4000)}
+            "valid": bool(e.flags & FLAG_VALID), "skip": skipbit, "ita": bool(e.extended_flags & EXTENDED_FLAG_INTEND_TO_ADD),
+            "xbit": bool(e.flags & FLAG_EXTENDED)}
 
 
 def dw_items_abs(items):
@@ -313,7 +339,7 @@ def dw_read_stream(data: bytes):
     from dulwich.index import read_index
     out = []
     for se in read_index(io.BytesIO(data)):
-        out.append(_abs_from_dw(se.name, (se.flags >> 12) & 3, se))
+        out.append(_abs_from_dw(se.name, se.stage().value, se))
     return out
 
 
@@ -394,9 +420,9 @@ class Git:
             return "git wrote no index"
         return None
 
-    def fsck_index_ok(self, index):
+    def fsck_index_ok(self, index, cwd=None):
         """True iff `git fsck` accepts the index checksum (missing blobs are not our concern)."""
-        p = self.run(["git", "fsck", "--no-dangling", "--no-progress"], index=index, check=False)
+        p = self.run(["git", "fsck", "--no-dangling", "--no-progress"], index=index, check=False, cwd=cwd)
         err = p.stderr.decode("utf-8", "replace")
         return not ("bad index file sha1 signature" in err or "index file corrupt" in err), err.strip()[:300]
 
